@@ -12,12 +12,16 @@
             }), // @accepted_only_without_conflict
             // the representation invariant lookup_route (V10) relies on is maintained
             wf_node(*final(self).root), // @insert_keeps_the_trie_wellformed
+            // what the registration does to the trie: the endpoint is appended at the end of its template's path,
+            // missing nodes are created on the way, nothing else changes
+            ins_rel(Some(*old(self).root), template_of(endpoint.path@), *final(self).root, endpoint, upper_string(method_text(endpoint.method))), // @insert_adds_exactly_this_endpoint_at_its_path
 //@ body_start
         broadcast use ax_string_ext, ax_string_obeys_cmp, ax_upper_string, ax_method_names_are_header_values;
         let ghost root0 = *self.root;
         let ghost tmpl = template_of(endpoint.path@);
         let ghost mname = upper_string(method_text(endpoint.method));
         let ghost ver = endpoint.versions;
+        let ghost e0 = endpoint;
         // a rejection is justified exactly when C02 names a conflict
         let ghost why = conflicting(root0, tmpl, mname, ver);
         let ghost mut term = false;
@@ -36,12 +40,15 @@
                 (wf_node(**final(node)) && (term ==> final(node).edges is None)) ==> wf_node(fin), // @inv_wellformed_below_implies_wellformed_root
                 term ==> IteratorSpec::remaining(&all_segments).len() == 0,
                 reg(root0, tmpl, Set::empty(), mname) == reg(**node, texts(IteratorSpec::remaining(&all_segments)), varnames@, mname), // @inv_rest_of_the_registration_from_here
+                ins_rel(Some(**node), texts(IteratorSpec::remaining(&all_segments)), **final(node), e0, mname)
+                    ==> ins_rel(Some(root0), tmpl, fin, e0, mname), // @inv_insertion_below_implies_insertion_at_root
             ensures
                 IteratorSpec::remaining(&all_segments).len() == 0,
 //@ loop 0 body_start
             broadcast use ax_string_ext, ax_string_obeys_cmp;
             let ghost rem_after = IteratorSpec::remaining(&all_segments);
             let ghost node0 = **node;
+            let ghost fin_old = **final(node);
             let ghost seen0 = varnames@;
             let ghost seg0 = seg_of(raw_segment@);
             let ghost before = texts(seq![raw_segment] + rem_after);
@@ -59,9 +66,16 @@
             proof {
                 term = seg0 is VarnameWildcard;
                 rem_head = IteratorSpec::remaining(&all_segments);
+            }
+            proof {
                 if fresh_node(**node) {
                     reg_of_fresh(**node, texts(IteratorSpec::remaining(&all_segments)), varnames@, mname);
+                    ins_rel_fresh(**node, texts(IteratorSpec::remaining(&all_segments)), **final(node), e0, mname);
                 }
+                assert(seg0 is VarnameWildcard ==> texts(IteratorSpec::remaining(&all_segments)) =~= Seq::<Seq<char>>::empty());
+                assert(forall|k: String| #[trigger] handlers_for(fin_old, k) == hs_of(Some(node0), k));
+                assert(ins_rel(Some(**node), texts(IteratorSpec::remaining(&all_segments)), **final(node), e0, mname)
+                    ==> ins_rel(Some(node0), before, fin_old, e0, mname));
             }
 //@ after "to_uppercase_();" 0
         proof { ax_string_ext(methodname, mname); }
